@@ -142,6 +142,7 @@ func (d *storeDrv) openOn(fs vfs.FS) error {
 // crash, count only).  Returns the number of FS operations seen.
 func (d *storeDrv) runCrash(hi int, h []histStep, k int64, kinds *[]string) (int64, bool, error) {
 	d.vers = nil
+	d.verBase, d.pad = d.plan.baseOf(hi), d.plan.Pad
 	d.theta, d.tol = d.plan.Theta, d.plan.Tol
 	mem, err := prepMem()
 	if err != nil {
@@ -249,8 +250,17 @@ func storeCrash(args []string) error {
 		if len(plan.Points) > 0 {
 			ks = append([]int64(nil), plan.Points...)
 		} else if plan.MaxPoints > 0 && len(ks) > plan.MaxPoints {
-			rng.Shuffle(len(ks), func(i, j int) { ks[i], ks[j] = ks[j], ks[i] })
-			ks = ks[:plan.MaxPoints]
+			// stratified sample: one random point in each of MaxPoints equal strata, so that every
+			// window of at least len/MaxPoints consecutive operations is hit whatever the seed
+			m := plan.MaxPoints
+			var pick []int64
+			for i := 0; i < m; i++ {
+				lo, hi := len(ks)*i/m, len(ks)*(i+1)/m
+				if hi > lo {
+					pick = append(pick, ks[lo+rng.Intn(hi-lo)])
+				}
+			}
+			ks = pick
 		}
 		for _, k := range ks {
 			offsets = append(offsets, tw.n+1)
